@@ -66,12 +66,12 @@ def _mc(rep, tier):
                           env={"_JAVA_OPTIONS": "-XX:ParallelGCThreads=4"}, **kw) for label, mod, cfg, kw in jobs]
         res = [f.result() for f in futs]
     for (label, _, _, _), r in zip(jobs, res):
-        m = re.search(r"Progress: (\d+) states checked, (\d+) traces generated", r.out)
-        if m:   # simulation mode reports its counts differently
+        m = re.findall(r"Progress: (\d+) states checked, (\d+) traces generated", r.out)
+        if m:   # simulation mode reports its counts differently (the last progress line is the total)
             run = [x for x in rep.cov["mc_runs"] if x["instance"] == label][-1]
-            run["simulated_states"], run["simulated_behaviours"] = int(m.group(1)), int(m.group(2))
-            rep.states += int(m.group(1))
-            rep.transitions += int(m.group(1))
+            run["simulated_states"], run["simulated_behaviours"] = int(m[-1][0]), int(m[-1][1])
+            rep.states += int(m[-1][0])
+            rep.transitions += int(m[-1][0])
     _check_coverage(rep, jobs[0][0])
 
 
